@@ -118,6 +118,16 @@ def run(ctx):
                 hx = "".join("%08x" % c for c in cps)
                 lines.append("F0=%d,0,f;S0=0,-1,-1,0,32,0,-1,%s;R0;D0;d0;X0;L0" % (fi, hx))
                 meta.append(("loop", "shape %s text=%s" % (desc["model"], hx)))
+        # (c3) rules nearly as long as the slot map, walked over with inserts and deletes in between: the map register and the cursor at the far
+        # end of m_slot_map; model compared as well
+        for k in range(40 if q else 1500):
+            data, desc = fontsynth.gen_long_font(r)
+            fi = add_font(data)
+            for _ in range(2):
+                cps = fontsynth.gen_long_text(r, desc)
+                hx = "".join("%08x" % c for c in cps)
+                lines.append("F0=%d,0,f;S0=0,-1,-1,0,32,0,-1,%s;R0;D0;d0;X0;L0" % (fi, hx))
+                meta.append(("loop", "shape %s text=%s" % (desc["model"], hx)))
         # (d) boundary fonts: an operand one past the end of its table; the loader must refuse, otherwise shaping must still be safe
         for _ in range(40 if q else 1000):
             data, desc = fontsynth.gen_boundary_font(r)
